@@ -168,6 +168,8 @@ def check(run):
     groups.append(('C02/site/ComptonProfile_Partial', lambda cl: b_cprofile_partial(cl, mc, H), ()))
     groups.append(('C02/site/CSb_Photo_Partial', lambda cl: b_kissel_partial(cl, mk, H), ()))
     bcheck.run_groups(run, groups)
+    from vlib import datalemma
+    datalemma.attach(run, 'C02', want=('spline',))
 
 
 # ----------------------------------------------------------------------------------------- 2b. two-index call sites
